@@ -12,6 +12,29 @@ from .src import loops_of, ShapeMismatch
 from .interp_expr import FuncRef, ClassRef, ModRef, BoundMethod, Builtin, UF
 
 
+_DEPTH = {}
+
+
+def term_depth(t, limit=12):
+    """Depth of a z3 term, saturating at `limit` (memoised by AST id)."""
+    k = t.get_id()
+    if k in _DEPTH:
+        return _DEPTH[k]
+    if not z3.is_app(t) or t.num_args() == 0:
+        d = 0
+    else:
+        d = 0
+        for c in t.children():
+            d = max(d, term_depth(c, limit))
+            if d >= limit:
+                break
+        d = min(limit, d + 1)
+    if len(_DEPTH) > 300000:
+        _DEPTH.clear()
+    _DEPTH[k] = d
+    return d
+
+
 class _Return(Exception):
     def __init__(self, value):
         self.value = value
@@ -76,9 +99,25 @@ class StmtMixin:
         r = self.ops.binop(BINOPS[type(s.op)], cur, v, self.where(frame, s))
         self.assign(frame, tgt, r)
 
+    def name_term(self, v, hint="t"):
+        """Give a deep bit-vector term a name: a fresh constant with a defining equation in the path condition
+        (conservative), so that later terms and VCs stay small.  Interval facts carry over to the name."""
+        if not (is_bv(v) and self.ctx.settings.name_deep_terms) or self.ctx.nofork or getattr(self, "naming_off", False):
+            return v
+        if term_depth(v) <= self.ctx.settings.name_deep_terms:
+            return v
+        from . import ranges
+        nv = z3.BitVec(self.ctx.fresh_name("let_" + hint), v.size())
+        r = ranges.rng(v)
+        self.ctx.pc.append(nv == v)
+        if r is not None:
+            ranges.BOUNDS[nv.get_id()] = r
+            ranges._KEEP.append(nv)
+        return nv
+
     def assign(self, frame, target, v):
         if isinstance(target, ast.Name):
-            frame.locals[target.id] = v
+            frame.locals[target.id] = self.name_term(v, target.id)
             return
         if isinstance(target, (ast.Tuple, ast.List)):
             vals = self.unpack(v, len(target.elts), self.where(frame, target))
@@ -123,7 +162,7 @@ class StmtMixin:
             if is_pyint(idx):
                 if not (-len(base) <= idx < len(base)):
                     raise PyRaise("IndexError", w)
-                base[idx] = v
+                base[idx] = self.name_term(v, "elem")
                 return
             if ops.is_symint(idx):
                 n = len(base)
@@ -245,14 +284,21 @@ class StmtMixin:
                 return self.invariant_loop(frame, s, lc, k, self.to_symlist(it))
             raise ShapeMismatch("CONTRACT-SHAPE-MISMATCH %s loop %s: invariant given but the iterable is %s" % (frame.qual, k, type(it).__name__))
         items = self.concrete_iter(it, w)
+        hook = getattr(self, "loop_hooks", {}).get((frame.qual, k if k is not None else (frame.loops.index(s) if s in frame.loops else None)))
         for x in items:
             self.assign(frame, s.target, x)
+            if hook:
+                hook(self, frame, x, "pre")       # ghost code of the sidecar contract: snapshots, assertions
             try:
                 self.exec_block(frame, s.body)
             except _Break:
                 break
             except _Continue:
+                if hook:
+                    hook(self, frame, x, "post")
                 continue
+            if hook:
+                hook(self, frame, x, "post")
 
     def assigned_names(self, stmts):
         names = set()
